@@ -352,6 +352,34 @@ TEMPLATE_IDENTIFIERS = {"Record", "_desc", "_field_types", "__slots__", "__init_
                         "_zip_longest", "args", "kwargs", "k", "v", "f", "setattr", "get", "values", "dict", "_generated", "_version", "_source", "_classification"}
 
 
+def _namespace_types():
+    """every proper dotted prefix of a whitelisted type name (a namespace, not a type), attributes of the field-type modules that are
+    not whitelisted, each also in list form; all whitelisted names are resolved first so that their sub-modules are imported"""
+    import flow.record.fieldtypes as FTM
+    from flow.record.base import fieldtype
+    from flow.record.whitelist import WHITELIST
+
+    for w in WHITELIST:
+        try:
+            fieldtype(w)
+            fieldtype(w + "[]")
+        except Exception:  # noqa: BLE001
+            pass
+    names = set()
+    for w in WHITELIST:
+        parts = w.split(".")
+        for k in range(1, len(parts)):
+            names.add(".".join(parts[:k]))
+    for attr in ("FieldType", "typedlist", "net.ip", "net.ipv4.addr_long", "os", "re", "warnings", "binascii", "net.ipv4.struct", "_dt", "datetime.datetime", "path.from_posix"):
+        names.add(attr)
+    names -= set(WHITELIST)
+    out = []
+    for n in sorted(names):
+        out += [n, n + "[]"]
+    assert all(hasattr(FTM, n.split(".")[0]) or True for n in out)
+    return out
+
+
 def payload_battery():
     """Concrete side condition: every hostile payload is refused in all four channels without side effects; valid definitions
     are accepted with exactly the declared fields + reserved fields; the text handed to exec mentions only validated names."""
@@ -364,7 +392,7 @@ def payload_battery():
         with ExecCapture() as cap:
             cases = [("field name", "test/x", [("string", fn.replace("{trip}", trip))]) for fn in HOSTILE_FIELD_NAMES]
             cases += [("type name", tn.replace("{trip}", trip), [("string", "a")]) for tn in HOSTILE_TYPE_NAMES]
-            cases += [("field type", "test/x", [(ft, "a")]) for ft in HOSTILE_FIELD_TYPES]
+            cases += [("field type", "test/x", [(ft, "a")]) for ft in HOSTILE_FIELD_TYPES + _namespace_types()]
             # combinations with a keyword field (other class template) and with the same name without the newline
             cases += [("field name", "test/x", [("string", "class"), ("string", "a\n")]), ("field name", "test/x", [("string", "a"), ("string", "a\n")]), ("type name", "test/x\n", [("string", "class")])]
             for kind, name, fields in cases:
